@@ -234,9 +234,10 @@ def dispatchCmp : Dispatch := fun W op args =>
     let (y, py) ← parseFloat B sb eb pb
     let c := reprCmpSameBase B (exactDigits B) x y (some (px, py))
     let c' := reprCmpSameBase B (exactDigits B) y x (some (py, px))
-    let m := "ok " ++ boolStr (fbigEq x y) ++ " " ++ ordStr c ++ " " ++ ordStr c'
+    let cr := reprCmpSameBase B (exactDigits B) x y none     -- `Ord for Repr<B>`: no precisions
+    let m := "ok " ++ boolStr (fbigEq x y) ++ " " ++ ordStr c ++ " " ++ ordStr c' ++ " " ++ ordStr cr
     let sc := specFCmp B x y
-    let s := "ok " ++ boolStr (sc == .eq) ++ " " ++ ordStr sc ++ " " ++ ordStr (specFCmp B y x)
+    let s := "ok " ++ boolStr (sc == .eq) ++ " " ++ ordStr sc ++ " " ++ ordStr (specFCmp B y x) ++ " " ++ ordStr sc
     pure (chk m s)
   | "f.basecmp", [sa, ea, pa, p10, sb, eb] => do
     let sg ← parseInt sa; let ex ← parseDecNat ea; let _ ← parseDecNat pa; let pc ← parseDecNat p10
